@@ -15,7 +15,7 @@ R6 binding           : Client::register/authenticate: the authenticator call is 
                        the request's rp id is exactly assert_domain's Ok payload, and assert_domain returns only its own
                        rp_id argument or the origin host.
 """
-from . import core, flow, names, summary
+from . import core, flow, names, normal, summary
 from .framework import where, short, api_name
 from .common import CLIENT, AUTH, ceremony, find_aggs, upvar_names
 
@@ -118,7 +118,8 @@ def run(chk):
     chk.touched(ad)
     origin_adt = [a for a in p.adts.values() if a["path"] == "passkey_client::Origin"]
     variants = [v["name"] for v in origin_adt[0]["variants"]] if origin_adt else ["Web", "Android"]
-    outs = S.outcomes(ad)
+    N = normal.Normalizer(p, S)
+    outs = normal.rows(S, ad, N)
     for b in p.call_closure([ad]).values():
         chk.touched(b)
     if S.imprecise:
@@ -147,25 +148,21 @@ def run(chk):
     def is_localhost_row(o):
         eq = flag = False
         for t, labs, fn, w in o.conds:
-            if has_call(t, "PartialEq::eq") and "localhost" in consts_of_term(p, t) and flow.lab_true(labs):
+            e = flow.eq_test(t, labs)
+            if e is not None and e[1] is True and any(x in (("const", "localhost"), ("const", b"localhost")) or "localhost" in consts_of_term(p, x) for x in e[0]):
                 eq = True
             if isinstance(t, tuple) and t[0] == "field" and t[2] == "allows_insecure_localhost" and flow.lab_true(labs):
                 flag = True
         return eq, flag
 
     def psl_cond(o):
+        """the row requires effective_tld_plus_one(..) to have succeeded (any spelling of that test)"""
+        is_etld = lambda x: is_callee(x, "EffectiveTLDProvider::effective_tld_plus_one")
         for t, labs, fn, w in o.conds:
-            for c in closures_in(t):
-                hit = body_calls(p, c[1], "EffectiveTLDProvider::effective_tld_plus_one")
-                if hit:
-                    # polarity: is_none(..) false / is_some(..) true
-                    if has_call(t, "Option::is_none") and flow.lab_false(labs):
-                        return t, hit
-                    if has_call(t, "Option::is_some") and flow.lab_true(labs):
-                        return t, hit
-            c = has_call(t, "EffectiveTLDProvider::effective_tld_plus_one")
-            if c and t[0] == "discr" and flow.lab_holds(labs, "0") and not flow.lab_holds(labs, "1"):
-                return t, None
+            if flow.asserts_ok(t, labs, is_etld):
+                r = flow.presence_test(t, labs)
+                call = [x for x in flow._subjects(r[0], False) if is_etld(x)][0]
+                return call, None
         return None, None
 
     # one group per origin kind the build has (the Android arm exists only with `android-asset-validation`)
@@ -255,7 +252,7 @@ def run(chk):
     # is_valid_rp_id
     if chk.require("R5 registrable domain", "R5|is_valid_rp_id", iv, VERIFIER, "RpIdVerifier::is_valid_rp_id not found"):
         chk.touched(iv)
-        outs2 = S.outcomes(iv)
+        outs2 = normal.rows(S, iv, N)
         acc2 = [o for o in outs2 if o.value == ("const", 1) or o.value == ("const", "const true")]
         ok = bool(acc2)
         w = ""
